@@ -841,6 +841,21 @@ func (gqm *GroupQuotaManager) MigratePod(pod *v1.Pod, out, in string) {
 	gqm.hierarchyUpdateLock.Lock()
 	defer gqm.hierarchyUpdateLock.Unlock()
 
+	outQuota := gqm.getQuotaInfoByNameNoLock(out)
+	if outQuota == nil || !outQuota.IsPodExist(pod) {
+		// the pod was deleted or migrated after the caller listed it, nothing is left to move.
+		return
+	}
+	if inQuota := gqm.getQuotaInfoByNameNoLock(in); inQuota != nil && inQuota.IsPodExist(pod) {
+		// the pod is already counted by the target quota, only release it from the source quota.
+		gqm.updatePodRequestNoLock(out, pod, nil)
+		if outQuota.CheckPodIsAssigned(pod) {
+			gqm.updatePodUsedNoLock(out, pod, nil)
+		}
+		gqm.updatePodCacheNoLock(out, pod, false)
+		return
+	}
+
 	isAssigned := gqm.getPodIsAssignedNoLock(out, pod)
 	gqm.updatePodRequestNoLock(out, pod, nil)
 	if isAssigned {
